@@ -629,6 +629,11 @@ class ISD(model.Document):
           isd_element_children.append(isd_element_child)
 
     if len(isd_element_children) > 0:
+
+      if isinstance(isd_element, (model.Ruby, model.Rtc)):
+        # some of the children may not be active at this time
+        isd_element_children = _conform_ruby_children(isd, isd_element, isd_element_children)
+
       isd_element.push_children(isd_element_children)
 
       if isinstance(isd_element, (model.P, model.Rt, model.Rtc)):
@@ -658,6 +663,45 @@ class ISD(model.Document):
       return isd_element
 
     return None
+
+def _conform_ruby_children(
+    isd: ISD,
+    isd_element: typing.Union[model.Ruby, model.Rtc],
+    children: typing.List[model.ContentElement]
+  ) -> typing.List[model.ContentElement]:
+  '''Returns a list of children that conforms to the content model of ruby containers and ruby
+  text containers when some of the children have been pruned, e.g. because the annotation
+  is not active. Missing bases and annotations are replaced by empty ones and unbalanced
+  delimiters are dropped.'''
+
+  if isinstance(isd_element, model.Rtc):
+
+    rps = [c for c in children if isinstance(c, model.Rp)]
+    rts = [c for c in children if isinstance(c, model.Rt)]
+
+    if len(rps) == 2 and len(rts) > 0 and children[0] is rps[0] and children[-1] is rps[1]:
+      return children
+
+    return rts
+
+  if any(isinstance(c, (model.Rbc, model.Rtc)) for c in children):
+
+    rbcs = [c for c in children if isinstance(c, model.Rbc)]
+    rtcs = [c for c in children if isinstance(c, model.Rtc)]
+
+    return [rbcs[0] if rbcs else model.Rbc(isd)] + (rtcs[:2] if rtcs else [model.Rtc(isd)])
+
+  rbs = [c for c in children if isinstance(c, model.Rb)]
+  rts = [c for c in children if isinstance(c, model.Rt)]
+  rps = [c for c in children if isinstance(c, model.Rp)]
+
+  rb = rbs[0] if rbs else model.Rb(isd)
+  rt = rts[0] if rts else model.Rt(isd)
+
+  if len(rps) == 2:
+    return [rb, rps[0], rt, rps[1]]
+
+  return [rb, rt]
 
 def _prune_empty_spans(element: model.ContentElement):
   children = list(element)
